@@ -372,7 +372,79 @@ def find_search(fi):
                             cl = t.targets[0].id
                     return dict(outer=outer, inner=s, proj=proj, cl=cl, seq=g.iter, kind='next', gen=g,
                                 body=stmts, test=g.ifs[0], names=names, genvar=g.target.id)
+    # (c) clique-major sweep: every measurement goes into a pending list; the cliques are then swept in the searched order and each takes
+    #     the pending measurements it contains (removing them).  A measurement is taken by the FIRST clique of the sequence that contains it,
+    #     and a clique receives its measurements in list order: the same assignment as the measurement-major search.
+    sw = find_sweep(fi)
+    if sw is not None:
+        return sw
     raise AnalysisError('%s: clique search not found' % fi.qualname)
+
+
+def find_sweep(fi):
+    body = fi.body
+    for outer in [s_ for s_ in body if isinstance(s_, ast.For)]:
+        names = unpack4(outer)
+        if names is None:
+            continue
+        # the measurement tuple is appended to a local list, unconditionally, at the top level of the loop body
+        apps = [s_ for s_ in outer.body if isinstance(s_, ast.Expr) and isinstance(s_.value, ast.Call) and isinstance(s_.value.func, ast.Attribute)
+                and s_.value.func.attr == 'append' and isinstance(s_.value.func.value, ast.Name) and len(s_.value.args) == 1]
+        for ap in apps:
+            P = ap.value.func.value.id
+            arg = ap.value.args[0]
+            if isinstance(arg, ast.Name):
+                ds = [a_.value for a_ in outer.body if isinstance(a_, ast.Assign) and len(a_.targets) == 1 and U(a_.targets[0]) == arg.id]
+                arg = ds[-1] if ds else arg
+            if not (isinstance(arg, ast.Tuple) and [U(e_) for e_ in arg.elts] == names):
+                continue
+            inits = [a_ for a_ in body[:body.index(outer)] if isinstance(a_, ast.Assign) and len(a_.targets) == 1 and U(a_.targets[0]) == P
+                     and isinstance(a_.value, ast.List) and not a_.value.elts]
+            if len(inits) != 1:
+                continue
+            for sweep in [s_ for s_ in body[body.index(outer) + 1:] if isinstance(s_, ast.For) and isinstance(s_.target, ast.Name)]:
+                cl = sweep.target.id
+                whiles = [w_ for w_ in sweep.body if isinstance(w_, ast.While)]
+                if len(whiles) != 1:
+                    continue
+                w = whiles[0]
+                from ..srcmodel import canon_compare
+                t = canon_compare(w.test)
+                if not (isinstance(t, ast.Compare) and len(t.ops) == 1 and isinstance(t.ops[0], ast.Lt) and isinstance(t.left, ast.Name)
+                        and U(t.comparators[0]).replace(' ', '') == 'len(%s)' % P):
+                    continue
+                i = t.left.id
+                ifs = [x for x in w.body if isinstance(x, ast.If)]
+                if len(ifs) != 1 or len(w.body) != 1:
+                    continue
+                locs = {a_.targets[0].id: a_.value for a_ in sweep.body if isinstance(a_, ast.Assign) and len(a_.targets) == 1
+                        and isinstance(a_.targets[0], ast.Name)}
+
+                class Sub(ast.NodeTransformer):
+                    def visit_Subscript(self, n_):
+                        self.generic_visit(n_)
+                        if U(n_).replace(' ', '') == '%s[%s][3]' % (P, i):
+                            return ast.Name(id=names[3], ctx=ast.Load())
+                        return n_
+
+                    def visit_Name(self, n_):
+                        if isinstance(n_.ctx, ast.Load) and n_.id in locs and n_.id != i:
+                            return clone(locs[n_.id])
+                        return n_
+                test = ast.If(test=Sub().visit(clone(ifs[0].test)), body=ifs[0].body, orelse=ifs[0].orelse)
+                ast.copy_location(test, ifs[0])
+                ast.fix_missing_locations(test)
+                takes = [c_ for c_ in ast.walk(ifs[0]) if isinstance(c_, ast.Call) and isinstance(c_.func, ast.Attribute) and c_.func.attr == 'append'
+                         and U(c_.func.value).replace(' ', '') == 'self.groups[%s]' % cl and len(c_.args) == 1
+                         and U(c_.args[0]).replace(' ', '') == '%s.pop(%s)' % (P, i)]
+                if len(takes) != 1 or is_subset(test.test, names[3], cl) is None:
+                    continue
+                zero = [a_ for a_ in sweep.body if isinstance(a_, ast.Assign) and len(a_.targets) == 1 and U(a_.targets[0]) == i and U(a_.value) == '0'
+                        and sweep.body.index(a_) < sweep.body.index(w)]
+                if len(zero) != 1:
+                    continue
+                return dict(outer=outer, inner=sweep, proj=names[3], cl=cl, seq=sweep.iter, kind='sweep', body=ifs[0].body, test=test, names=names)
+    return None
 
 
 def following(outer, stmt):
@@ -405,6 +477,14 @@ def search_loop(ctx, fi, action):
     ctx.analysed(fi)
     sr = find_search(fi)
     proj, cl = sr['proj'], sr['cl']
+    if sr['kind'] == 'sweep':
+        ifs = sr['test']
+        ctx.ob('exactly-once', fi, ifs, bool(is_subset(ifs.test, proj, cl)),
+               'a measurement belongs to a clique that contains its attributes: test must be set(%s) <= set(%s)' % (proj, cl))
+        ctx.ob('exactly-once', fi, sr['inner'], True,
+               'clique-major sweep: a measurement is removed from the pending list by the first clique of the sequence that contains it (the scan '
+               'itself is judged by the scan idiom rule)', construct='first match by removal in ' + fi.name)
+        return sr
     if sr['kind'] == 'loop':
         ifs = sr['test']
         ctx.ob('exactly-once', fi, ifs, bool(is_subset(ifs.test, proj, cl)),
@@ -547,7 +627,10 @@ def check_sibling(ctx, setup, s1, lip, s2):
         raise AnalysisError('%s: the measurement is attached to self.groups[%s] in a way this analysis does not recognise (not a plain append)' % (setup.qualname, cl))
     ctx.ob('exactly-once', setup, grp[0] if grp else s1['inner'], len(grp) == 1,
            'the matched clique `%s` receives the measurement: self.groups[%s].append(<measurement>)' % (cl, cl))
-    if grp:
+    if grp and s1['kind'] == 'sweep':
+        ctx.ob('exactly-once', setup, grp[0], True,
+               'the stored measurement is the pending entry, i.e. the tuple (%s) the measurement loop put there' % ','.join(s1['names']))
+    elif grp:
         from ..normalise import Defs, expand
         m = expand(grp[0].args[0], Defs(s1['outer'].body))
         want = '(%s)' % ','.join(s1['names'])
